@@ -691,7 +691,7 @@ def w_reference(seed, rep):
 
 
 def run(tier, seed, rep, only=None):
-    depth = 4 if tier == "quick" else int(__import__("os").environ.get("C18_DEPTH", 6))
+    depth = 5 if tier == "quick" else 8
     w_reference(seed, rep)
     items = []
     if not only or "fields" in only:
